@@ -22,7 +22,8 @@ LEVEL_TEXT = ('Kernel-checked theorems (Props/C17.v) about CHECKED twins of the 
               'and every list of rows inside [0,n) -- in particular the forward and backward sweep ranges the callers pass -- '
               'the checked gauss_seidel, sor_gauss_seidel and jacobi never leave their arrays and return exactly what the '
               'bit-exact kernel models of C09 return; naive and standard aggregation (the -n sentinel arithmetic, ids shifted in place, y written at next-1 / next) '
-              'likewise for every structurally valid CSR graph of any size, symmetric or not; for the Ruge-Stuben first pass (lambda buckets sized '
+              'likewise for every structurally valid CSR graph of any size, symmetric or not; breadth_first_search likewise (order[N] is written '
+              'only while fewer than n vertices are labelled, any seed in range); for the Ruge-Stuben first pass (lambda buckets sized '
               'max(2*lambda_max, n+1), the "//invalid write!" site) the same holds on all 133 strength patterns (directed on '
               '<= 3 vertices, symmetric on 4) and all influence vectors in {0,1,3}^n (bound stated in the theorem, decided by '
               'vm_compute over the complete enumeration).  The twins are tied to the working-tree kernels on both sides: on '
@@ -391,6 +392,68 @@ def twin_malformed(ctx, asan_dir):
     ctx.corr_relations.append('twin = None  <=>  AddressSanitizer report, on inputs with an index one step outside an array')
 
 
+def twin_bfs(ctx, asan_dir):
+    """breadth_first_search: checked twin == kernel on every small graph and seed; None exactly where ASan stops it"""
+    from pyamg import amg_core
+    cases, tags = [], []
+    graphs = []
+    for n in range(1, (5 if ctx.thorough else 4) + 1):
+        for edges in gen.all_sym_graphs(n):
+            graphs.append((n, list(edges) + [(j, i) for i, j in edges]))
+    for n in (2, 3):
+        for arcs in gen.all_directed_patterns(n):
+            graphs.append((n, list(arcs)))
+    for gi, (n, arcs) in enumerate(graphs):
+        G = gen.digraph_csr(n, arcs)
+        Ap, Aj = G.indptr.astype(I32), G.indices.astype(I32)
+        for seed in range(n):
+            order = np.full(n, -7, dtype=I32)
+            level = np.full(n, -1, dtype=I32)
+            amg_core.breadth_first_search(Ap, Aj, seed, order, level)
+            reached = int(np.sum(level >= 0))
+            cases.append('(%s, %s, %s, Some %s)' % (cq.z(n), cq.lst([cq.zl(Ap), cq.zl(Aj), cq.zl([-7] * n)]), cq.z(seed),
+                                                   cq.zl([reached] + order[:reached].tolist() + level.tolist())))
+            tags.append(('valid', gi, seed))
+            ctx.case(('bfs-twin', gi, seed), nontrivial=len(arcs) > 0)
+    # one step outside an array (run under the sanitizer build in a child process)
+    Ap = np.array([0, 1, 3, 4], dtype=I32)          # path 0 - 1 - 2
+    Aj = np.array([1, 0, 2, 1], dtype=I32)
+    mal = []
+    Aj1 = Aj.copy()
+    Aj1[2] = 3
+    mal.append(('bfs/column-index-n', Ap, Aj1, 0, 3))
+    Ap1 = Ap.copy()
+    Ap1[3] = 5
+    mal.append(('bfs/row-pointer-past-nnz', Ap1, Aj, 0, 3))
+    mal.append(('bfs/order-too-short', Ap, Aj, 0, 2))
+    mal.append(('bfs/seed-n', Ap, Aj, 3, 3))
+    mal.append(('bfs/valid-control', Ap, Aj, 1, 3))
+    for tag, ap, aj, seed, olen in mal:
+        order = np.full(olen, -7, dtype=I32)
+        level = np.full(3, -1, dtype=I32)
+        rep, rc, out = run_one_under_asan(asan_dir, dict(kernel='breadth_first_search', args=(ap, aj, seed, order.copy(), level.copy()),
+                                                         case='malformed/' + tag), 'mal_' + tag.replace('/', '_'))
+        ctx.case(('malformed', tag))
+        ctx.count('twin/malformed/' + ('sanitizer-report' if rep else 'clean'))
+        if rep:
+            exp = 'None'
+        else:
+            o2, l2 = order.copy(), level.copy()
+            amg_core.breadth_first_search(ap, aj, seed, o2, l2)
+            reached = int(np.sum(l2 >= 0))
+            exp = 'Some %s' % cq.zl([reached] + o2[:reached].tolist() + l2.tolist())
+        cases.append('(%s, %s, %s, %s)' % (cq.z(3), cq.lst([cq.zl(ap), cq.zl(aj), cq.zl([-7] * olen)]), cq.z(seed), exp))
+        tags.append((tag, rep[0] if rep else None))
+    bad, errs = cq.run_cases('c17_bfs', HEADER, '(Z * list (list Z) * Z * option (list Z))%type', 'bfs_chk_case', cases, shard=800)
+    for e in errs:
+        ctx.disagree('C17 BFS twin evaluation', None, e, None)
+    for i in bad:
+        ctx.disagree('checked breadth_first_search twin == kernel (valid graphs) / None <=> sanitizer report (malformed)',
+                     dict(case=str(tags[i])), 'twin', cases[i][:400])
+    ctx.count('twin/bfs_cases', len(cases))
+    ctx.corr_relations.append('checked breadth_first_search twin == working-tree kernel on every small graph and seed; None <=> sanitizer report')
+
+
 def run(ctx):
     try:
         asan_dir = core.native_build(asan=True)
@@ -401,6 +464,7 @@ def run(ctx):
     twin_rs(ctx)
     twin_agg(ctx)
     twin_malformed(ctx, asan_dir)
+    twin_bfs(ctx, asan_dir)
     san_corpus(ctx, asan_dir)
 
 
